@@ -38,6 +38,8 @@ type summary struct {
 	CasesDisagreeing int            `json:"cases_disagreeing"`
 	Disagreements    int            `json:"disagreements"`
 	BySig            map[string]int `json:"by_sig"`
+	SoftBySig        map[string]int `json:"soft_by_sig"`
+	CasesSoft        int            `json:"cases_soft"`
 	Store            string         `json:"store"`
 	HeaderErrors     []string       `json:"header_errors"`
 	SelfTestErrors   []string       `json:"selftest_errors"`
@@ -115,7 +117,7 @@ func main() {
 		fail("need --cases or --replay")
 	}
 
-	sum := summary{Stages: map[string]int{}, BySig: map[string]int{}, Store: opts.StoreName,
+	sum := summary{Stages: map[string]int{}, BySig: map[string]int{}, SoftBySig: map[string]int{}, Store: opts.StoreName,
 		HeaderErrors: []string{}, SelfTestErrors: []string{}}
 	sum.SelfTestErrors = append(sum.SelfTestErrors, chartcase.SelfTest()...)
 
@@ -196,12 +198,22 @@ func main() {
 		for _, s := range r.Stages {
 			sum.Stages[s]++
 		}
-		if len(r.Disagreements) > 0 {
-			sum.CasesDisagreeing++
-			sum.Disagreements += len(r.Disagreements)
-			for _, d := range r.Disagreements {
+		hard, soft := 0, 0
+		for _, d := range r.Disagreements {
+			if d.Soft {
+				soft++
+				sum.SoftBySig[d.Sig]++
+			} else {
+				hard++
 				sum.BySig[d.Sig]++
 			}
+		}
+		if hard > 0 {
+			sum.CasesDisagreeing++
+			sum.Disagreements += hard
+		}
+		if soft > 0 {
+			sum.CasesSoft++
 		}
 		if len(r.Disagreements) > 0 || *verbose {
 			if len(r.Disagreements) > 20 {
